@@ -27,6 +27,17 @@ def _all_str(x):
     return isinstance(x, (list, tuple)) and len(x) > 0 and all(_all_str(y) for y in x)
 
 
+def _all_num(x):
+    """A (nested, rectangular or not) list of plain numbers: numpy builds a numeric array from it."""
+    if isinstance(x, (bool, np.bool_)):
+        return False
+    if isinstance(x, (int, float, np.integer, np.floating)):
+        return True
+    if isinstance(x, np.ndarray):
+        return x.dtype != object and x.dtype.kind in "iuf"
+    return isinstance(x, (list, tuple)) and len(x) > 0 and all(_all_num(y) for y in x)
+
+
 class Raised(Exception):
     def __init__(self, cls):
         super().__init__(cls)
@@ -367,6 +378,9 @@ class _Expr(SymEval):
                 if np.asarray(args[0]).dtype == object:
                     raise NotSymbolic(f"{f.attr} of symbolic values")
                 return getattr(np, f.attr)(*args, **kw)
+            if f.attr in ("array", "asarray") and args and isinstance(args[0], (list, tuple)) and args[0] and _all_num(args[0]):
+                dt = kw.get("dtype", args[1] if len(args) > 1 else None)
+                return _prog_call(np.array, args[0], dtype=dt if dt in (None, int, float, bool) or isinstance(dt, type) else None)
             if f.attr in ("array", "asarray") and args and isinstance(args[0], (list, tuple)) and args[0] and _all_str(args[0]):
                 return _prog_call(np.array, args[0])  # an array of words, to be cut and converted later
             if f.attr in ("array", "asarray") and args and isinstance(args[0], np.ndarray):
@@ -415,6 +429,8 @@ class _Expr(SymEval):
             if isinstance(base, np.ndarray):
                 args = [self.eval(a) for a in n.args]
                 if f.attr in ("sum", "all", "any", "max", "min") and not n.keywords:
+                    if f.attr == "sum" and base.dtype != object:
+                        return base.sum()
                     if f.attr == "sum":
                         tot = Sym.const(0) if base.dtype == object else 0.0
                         for x in base.ravel():
@@ -742,12 +758,17 @@ class AccessorEval:
             self.depth -= 1
             self.module = saved_mod
 
-    def run_free(self, func, args, kwargs):
-        """A module-level helper called from an accessor."""
+    def run_free(self, func, args, kwargs, closure=None):
+        """A module-level helper called from an accessor (`closure`: the enclosing function's variables for a
+        nested function -- read-only: a nested function that rebinds them is outside the fragment)."""
         self.depth += 1
         if self.depth > 8:
             raise NotSymbolic("helper recursion")
-        local = dict(zip(func.posparams, args))
+        local = {k: v for k, v in (closure or {}).items() if k not in func.posparams}
+        if len(args) > len(func.posparams) and not getattr(func, "vararg", None):
+            self.depth -= 1
+            raise Raised("TypeError")
+        local.update(zip(func.posparams, args))
         extra_kw = {}
         for k, v in kwargs.items():
             if k in func.params:
@@ -910,6 +931,12 @@ class AccessorEval:
             raise _Break()
         if isinstance(st, ast.Continue):
             raise _Continue()
+        if isinstance(st, ast.FunctionDef):
+            g = next((h for h in self.prog.funcs.values() if h.node is st), None)
+            if g is None or any(isinstance(x, (ast.Nonlocal, ast.Yield, ast.YieldFrom)) for x in ast.walk(st)) or st.decorator_list:
+                raise NotSymbolic(f"nested function {st.name}")
+            local[st.name] = ("<function>", lambda args, kw, g=g, local=local: self.run_free(g, args, kw, closure=local))
+            return
         if isinstance(st, ast.Global):
             local["<global names>"] = set(local.get("<global names>", ())) | set(st.names)
             return
